@@ -392,6 +392,7 @@ type extractor struct {
 	multiRet []*sval        // results of the last inlined call (for a, b := helper())
 	stack    []*types.Func  // helpers being inlined (no recursion)
 	named    []types.Object // named results of the helper being inlined
+	alias    map[types.Object]types.Object // parameter of an inlined helper -> the caller's variable passed for it
 	nscan    int
 }
 
@@ -506,7 +507,26 @@ func (x *extractor) resolve(p *place) *place {
 
 // roleOf names a parameter "p<i>" and a local "<Type>#<k>" (k = ordinal among
 // the locals of that type in order of first use).
+// root is the variable an identifier denotes as the root of a storage
+// location: a (slice / array / struct) parameter of an inlined helper stands
+// for the caller's variable that was passed for it.
+func (x *extractor) root(id *ast.Ident) types.Object {
+	return x.unalias(objOf(x.info, id))
+}
+
+func (x *extractor) unalias(o types.Object) types.Object {
+	for i := 0; i < 8 && o != nil; i++ {
+		a, ok := x.alias[o]
+		if !ok {
+			break
+		}
+		o = a
+	}
+	return o
+}
+
 func (x *extractor) roleOf(o types.Object) string {
+	o = x.unalias(o)
 	if o == nil {
 		return "?"
 	}
@@ -761,7 +781,7 @@ func (x *extractor) ev(e ast.Expr) *sval {
 			if x.kn.isPointType(ft) {
 				// a point embedded in a struct value: a place rooted at the base object
 				if id, ok := unparen(e.X).(*ast.Ident); ok {
-					if o := objOf(x.info, id); o != nil {
+					if o := x.root(id); o != nil {
 						return &sval{k: svPoint, pl: &place{root: o}}
 					}
 				}
@@ -1215,12 +1235,31 @@ func (x *extractor) inlineFunc(f *types.Func, decl *ast.FuncDecl, recvE ast.Expr
 			}
 		}
 	}
+	if x.alias == nil {
+		x.alias = map[types.Object]types.Object{}
+	}
+	argRoot := func(e ast.Expr) types.Object {
+		e = unparen(e)
+		if u, ok := e.(*ast.UnaryExpr); ok && u.Op == token.AND {
+			e = unparen(u.X)
+		}
+		if id, ok := e.(*ast.Ident); ok {
+			if v, isVar := objOf(x.info, id).(*types.Var); isVar {
+				return x.unalias(v)
+			}
+		}
+		return nil
+	}
 	i := 0
 	for _, fl := range decl.Type.Params.List {
 		for _, n := range fl.Names {
 			if o := x.info.Defs[n]; o != nil && i < len(vals) {
 				x.env[o] = vals[i]
 				x.declAt[o] = x.depth
+				delete(x.alias, o)
+				if r := argRoot(call.Args[i]); r != nil && r != o {
+					x.alias[o] = r
+				}
 			}
 			i++
 		}
@@ -1495,7 +1534,7 @@ func (x *extractor) assign(lhs ast.Expr, v *sval, define bool, pos token.Pos) {
 				n.k = idx.n
 			}
 			if id, ok := unparen(l.X).(*ast.Ident); ok {
-				n.desc = x.roleOf(objOf(x.info, id))
+				n.desc = x.roleOf(x.root(id))
 			}
 			x.emit(n)
 			return
@@ -1512,7 +1551,7 @@ func (x *extractor) assign(lhs ast.Expr, v *sval, define bool, pos token.Pos) {
 		}
 		if base.k == svVec && base.elem == nil && v.k == svPoint {
 			if id, ok := unparen(l.X).(*ast.Ident); ok {
-				if o := objOf(x.info, id); o != nil && x.isPointSlice(o.Type()) {
+				if o := x.root(id); o != nil && x.isPointSlice(o.Type()) {
 					dst := &place{root: o, elem: true}
 					if idx.k == svInt {
 						dst.idx = idx.n
@@ -1749,7 +1788,7 @@ func (x *extractor) lenAtom(role string) *lin {
 // was made with, or the symbol len(role).
 func (x *extractor) lenOf(e ast.Expr, v *sval) *lin {
 	if id, ok := unparen(e).(*ast.Ident); ok {
-		if n, ok := x.makes[objOf(x.info, id)]; ok && n != nil {
+		if n, ok := x.makes[x.root(id)]; ok && n != nil {
 			return n
 		}
 	}
@@ -1772,7 +1811,7 @@ func (x *extractor) index(base *sval, baseE ast.Expr, idx *sval, pos token.Pos) 
 		if base.elem == nil {
 			// a slice of points (parameter or make): element place
 			if id, ok := unparen(baseE).(*ast.Ident); ok {
-				if o := objOf(x.info, id); o != nil && x.isPointSlice(o.Type()) {
+				if o := x.root(id); o != nil && x.isPointSlice(o.Type()) {
 					pl := &place{root: o, elem: true}
 					switch idx.k {
 					case svInt:
